@@ -1,3 +1,120 @@
-(* C18 - stub, being written *)
-From Coq Require Import List ZArith.
-From EpyV Require Import Lib.Prelude Model.Shuffle.
+(* C18 - ShuffleK rewiring preserves every node's degree.
+   Only statements here; every proof is [exact <lemma of Proofs/Shuffle*.v>] or short glue.
+   The random choices of a build are a list of events [evs] (every shuffled edge list, every DrawSet.draw
+   outcome); all theorems quantify over every such list and every fuel, and the loop theorems hold for the
+   state in which the model stops whatever the reason (Done, out of fuel, or a script that does not fit),
+   in particular for every completed build [Done]. *)
+From Coq Require Import List ZArith QArith Qround Bool Arith Lia.
+From EpyV Require Import Lib.Prelude Model.Shuffle Proofs.Shuffle Proofs.ShuffleLoop.
+Import ListNotations.
+Local Open Scope nat_scope.
+
+(* ---- one iteration of the loop *)
+
+(* an iteration either leaves the network alone or performs one swap a-b, c-d -> a-d, c-b whose guards
+   all held (swap_ok), on four pairwise distinct nodes, c being a node of a's degree *)
+Theorem C18_step_swap : forall nodes g0 s s', simple (st_g s) -> swap_step nodes g0 s = Next s' ->
+  unchanged s s' \/ exists a b c d, swapped nodes g0 s s' a b c d /\ NoDup [a; b; c; d].
+Proof. exact step_distinct. Qed.
+
+Theorem C18_step_degree : forall nodes g0 s s', simple (st_g s) -> swap_step nodes g0 s = Next s' ->
+  forall n, deg (st_g s') n = deg (st_g s) n.
+Proof. exact step_degree. Qed.
+
+(* no self-loop and no parallel edge is introduced *)
+Theorem C18_step_simple : forall nodes g0 s s', simple (st_g s) -> swap_step nodes g0 s = Next s' -> simple (st_g s').
+Proof. exact step_simple. Qed.
+
+(* the edge count is unchanged and at most two edges of any reference edge set disappear *)
+Theorem C18_step_count : forall nodes g0 s s', simple (st_g s) -> swap_step nodes g0 s = Next s' ->
+  length (st_g s') = length (st_g s) /\
+  forall orig, nodupu orig -> length (missing orig (st_g s')) <= length (missing orig (st_g s)) + 2.
+Proof. exact step_count. Qed.
+
+(* ---- the whole build, for every simple network, every f, every sequence of random choices *)
+
+Theorem C18_degrees : forall nodes g0 f evs fuel, simple g0 -> closed nodes g0 ->
+  forall n, deg (st_g (state_of (r_out (build nodes g0 f evs fuel)))) n = deg g0 n.
+Proof. intros nodes g0 f evs fuel Hs Hc. exact (inv_deg _ _ _ _ (build_inv nodes g0 f evs fuel Hs Hc)). Qed.
+
+Theorem C18_simple : forall nodes g0 f evs fuel, simple g0 -> closed nodes g0 ->
+  simple (st_g (state_of (r_out (build nodes g0 f evs fuel)))).
+Proof. intros nodes g0 f evs fuel Hs Hc. exact (inv_simple _ _ _ _ (build_inv nodes g0 f evs fuel Hs Hc)). Qed.
+
+(* same nodes (the node list is not touched and every edge still joins two of them), same number of edges *)
+Theorem C18_same_nodes_edges : forall nodes g0 f evs fuel, simple g0 -> closed nodes g0 ->
+  let r := build nodes g0 f evs fuel in
+  r_nodes r = nodes /\ closed nodes (st_g (state_of (r_out r))) /\ length (st_g (state_of (r_out r))) = length g0.
+Proof.
+  intros nodes g0 f evs fuel Hs Hc. pose proof (build_inv nodes g0 f evs fuel Hs Hc) as Hi.
+  split; [reflexivity | split; [exact (inv_closed _ _ _ _ Hi) | exact (inv_len _ _ _ _ Hi)]].
+Qed.
+
+(* a completed build made exactly floor(f*M) swaps ... *)
+Theorem C18_swap_count : forall nodes g0 f evs fuel s, simple g0 -> closed nodes g0 ->
+  r_out (build nodes g0 f evs fuel) = Done s ->
+  st_cnt s = imax_of (length g0) f /\ length (st_swaps s) = imax_of (length g0) f.
+Proof.
+  intros nodes g0 f evs fuel s Hs Hc H. pose proof (build_done_cnt nodes g0 f evs fuel s Hs Hc H) as E.
+  pose proof (build_inv nodes g0 f evs fuel Hs Hc) as Hi. rewrite H in Hi. cbn in Hi.
+  split; [exact E | rewrite (inv_swaps _ _ _ _ Hi); exact E].
+Qed.
+
+(* ... where imax_of M f is floor(M*f) for f >= 0 *)
+Theorem C18_imax_floor : forall M f, (0 <= f)%Q ->
+  (inject_Z (Z.of_nat (imax_of M f)) <= inject_Z (Z.of_nat M) * f)%Q /\
+  (inject_Z (Z.of_nat M) * f < inject_Z (Z.of_nat (imax_of M f)) + 1)%Q.
+Proof. exact imax_of_spec. Qed.
+
+(* ... and misses at most 2*floor(f*M) of the original edges *)
+Theorem C18_diff_bound : forall nodes g0 f evs fuel s, simple g0 -> closed nodes g0 ->
+  r_out (build nodes g0 f evs fuel) = Done s ->
+  length (missing g0 (st_g s)) <= 2 * imax_of (length g0) f.
+Proof.
+  intros nodes g0 f evs fuel s Hs Hc H. pose proof (build_done_cnt nodes g0 f evs fuel s Hs Hc H) as E.
+  pose proof (build_inv nodes g0 f evs fuel Hs Hc) as Hi. rewrite H in Hi. cbn in Hi.
+  rewrite <- E. exact (inv_missing _ _ _ _ Hi).
+Qed.
+
+(* also while the loop is still running: never more than two original edges per swap made so far *)
+Theorem C18_diff_bound_running : forall nodes g0 f evs fuel, simple g0 -> closed nodes g0 ->
+  let s := state_of (r_out (build nodes g0 f evs fuel)) in
+  length (missing g0 (st_g s)) <= 2 * st_cnt s /\ st_cnt s <= imax_of (length g0) f.
+Proof.
+  intros nodes g0 f evs fuel Hs Hc. pose proof (build_inv nodes g0 f evs fuel Hs Hc) as Hi.
+  split; [exact (inv_missing _ _ _ _ Hi) | exact (inv_cnt _ _ _ _ Hi)].
+Qed.
+
+(* identical for f = 0 (no hypothesis on the network at all) *)
+Theorem C18_zero_identity : forall nodes g0 evs fuel,
+  st_g (state_of (r_out (build nodes g0 0%Q evs fuel))) = g0.
+Proof. exact build_zero. Qed.
+
+(* the degree bins computed once at entry are the bins of every later network: they never need updating *)
+Theorem C18_bins_valid : forall nodes g0 f evs fuel, simple g0 -> closed nodes g0 ->
+  forall k, bin nodes (st_g (state_of (r_out (build nodes g0 f evs fuel)))) k = bin nodes g0 k.
+Proof.
+  intros nodes g0 f evs fuel Hs Hc. apply bins_valid.
+  exact (inv_deg _ _ _ _ (build_inv nodes g0 f evs fuel Hs Hc)).
+Qed.
+
+(* the build works on the copy it is given; the model's prototype slot is never written.  (This is true by
+   construction of the model; that the implementation behaves like this is what tie B and D check.) *)
+Theorem C18_prototype : forall nodes g0 f evs fuel, r_proto (build nodes g0 f evs fuel) = g0.
+Proof. reflexivity. Qed.
+
+(* non-vacuity: the 6-cycle, f = 1/4 (one swap asked for), the choices 0-1 / c = 3 / d = 2:
+   all hypotheses hold, the build completes, and the network really changes *)
+Example C18_example :
+  let nodes := [0; 1; 2; 3; 4; 5]%Z in
+  let g0 := [(0,1); (1,2); (2,3); (3,4); (4,5); (5,0)]%Z in
+  let evs := [Shuf g0; Draw 3 6; Draw 0 2] in
+  simple g0 /\ closed nodes g0 /\
+  exists s, r_out (build nodes g0 (1#4) evs 10) = Done s /\
+            st_g s = [(1,2); (3,4); (4,5); (5,0); (0,2); (3,1)]%Z /\ st_swaps s = [(0, 1, 3, 2)%Z] /\ st_evs s = [].
+Proof.
+  cbv zeta. split; [|split].
+  - split; [cbn; tauto|]. intros e H. cbn in H. intuition (subst; discriminate).
+  - intros e H. cbn in H. intuition (subst; cbn; tauto).
+  - eexists. split; [vm_compute; reflexivity|]. cbn. auto.
+Qed.
